@@ -9,9 +9,10 @@ const RULE: &str = "words assembled from a segment list (so that encoding is exa
 
 const FRESH: [&str; 12] = ["Ж", "Ю", "あ", "か", "ξ", "ψψ", "ß", "Ѣ", "ш", "ДЖ", "ん", "ω"];
 
-pub struct Case { pub kind: String, pub rule: String, pub segs: Vec<Vec<String>>, pub stress: Vec<u8>, pub tones: Vec<u16>, pub aliases: Vec<String> }
+/// `expand`: for a sequence deromaniser `S > X:[+long]Y`, S stands in `segs` as one item and expands to the plain text `XːY`
+pub struct Case { pub kind: String, pub rule: String, pub segs: Vec<Vec<String>>, pub stress: Vec<u8>, pub tones: Vec<u16>, pub aliases: Vec<String>, pub expand: Vec<(String, String)> }
 impl Case {
-    fn json(&self) -> Value { json!({"kind": self.kind, "rule": self.rule, "segs": self.segs, "stress": self.stress, "tones": self.tones, "aliases": self.aliases}) }
+    fn json(&self) -> Value { json!({"kind": self.kind, "rule": self.rule, "segs": self.segs, "stress": self.stress, "tones": self.tones, "aliases": self.aliases, "expand": self.expand.iter().map(|(a, b)| json!([a, b])).collect::<Vec<_>>()}) }
     fn text(&self, enc: &dyn Fn(&str, bool) -> String) -> String {
         let mut s = String::new();
         for (i, sy) in self.segs.iter().enumerate() {
@@ -35,6 +36,7 @@ fn gen(r: &mut Rng) -> Case {
     }
     let rule = plain(&rand_rule(r, &RuleCfg { max_side: 2, ..RuleCfg::default() }));
     let mut aliases = Vec::new();
+    let mut expand: Vec<(String, String)> = Vec::new();
     let kind = if r.chance(3, 5) { "romaniser" } else { "deromaniser" };
     let mut fresh: Vec<&str> = FRESH.to_vec(); r.shuffle(&mut fresh);
     if kind == "romaniser" {
@@ -53,8 +55,31 @@ fn gen(r: &mut Rng) -> Case {
         if r.chance(1, 3) { aliases.push(if r.chance(2, 3) { "$ > *".to_string() } else { "$ > -".to_string().replace('-', "·") }); r.shuffle(&mut aliases); }
     } else {
         for k in 0..r.range(1, 3) { let f = fresh[k]; let t = r.pick(&pool).clone(); aliases.push(if r.chance(1, 4) { format!("{f} > {t}:[+long]") } else { format!("{f} > {t}") }); }
+        // a deromaniser that stands for a sequence, some members lengthened: `S > X:[+long]Y`. S is typed into the word as one item;
+        // the neighbours are chosen so that the expansion neither merges with them nor contains a doubled segment
+        if r.chance(1, 2) {
+            let f = fresh[4];
+            let n = r.range(2, 3);
+            let mut xs: Vec<String> = Vec::new();
+            while xs.len() < n { let t = rand_seg(r); if xs.last() != Some(&t) { xs.push(t) } }
+            let longs: Vec<u8> = (0..n).map(|_| [0u8, 0, 0, 1, 1, 2][r.below(6)]).collect();
+            let rhs: String = xs.iter().zip(&longs).map(|(x, l)| match l { 1 => format!("{x}:[+long]"), 2 => format!("{x}:[+long, +overlong]"), _ => x.clone() }).collect();
+            let plain: String = xs.iter().zip(&longs).map(|(x, l)| format!("{x}{}", "ː".repeat(*l as usize))).collect();
+            let si = r.below(segs.len());
+            // positions between items (never between a segment and its length mark)
+            let slots: Vec<usize> = (0..=segs[si].len()).filter(|&j| j == segs[si].len() || segs[si][j] != "ː").collect();
+            let j = *r.pick(&slots);
+            let left = (0..j).rev().map(|q| &segs[si][q]).find(|x| *x != "ː");
+            let right = segs[si].get(j);
+            if left != Some(&xs[0]) && right != Some(&xs[n - 1]) {
+                segs[si].insert(j, f.to_string());
+                aliases.push(format!("{f} > {rhs}"));
+                expand.push((f.to_string(), plain));
+                if r.chance(1, 2) { r.shuffle(&mut aliases) }
+            }
+        }
     }
-    Case { kind: kind.to_string(), rule, segs, stress, tones, aliases }
+    Case { kind: kind.to_string(), rule, segs, stress, tones, aliases, expand }
 }
 
 // ---- reference printer for the simple romaniser class
@@ -109,7 +134,7 @@ fn ref_print(w: &Word, lines: &[ALine], bound: &Option<String>, bases: &std::col
 
 pub fn judge(rep: &mut Report, c: &Case, bases: &std::collections::HashSet<crate::sw::SegKey>) {
     rep.eval(1);
-    let word = c.text(&|s, long| if long { format!("{s}ː") } else { s.to_string() });
+    let word = c.text(&|s, long| if let Some((_, x)) = c.expand.iter().find(|(f, _)| f == s) { x.clone() } else if long { format!("{s}ː") } else { s.to_string() });
     let g = one_group(&[c.rule.clone()]);
     if compile1(&c.rule).is_err() { rep.obs("rule_rejected", 1); return }
     let plain_run = match run_pub(&g, &[word.clone()], &[], &[]) { Ok(v) => v[0].clone(), Err(Applied::Abort(s)) => { rep.abort(s, || c.json()); return } Err(_) => { rep.obs("run_err", 1); return } };
@@ -128,7 +153,7 @@ pub fn judge(rep: &mut Report, c: &Case, bases: &std::collections::HashSet<crate
         // deromanisers `S > X` / `S > X:[+long]`: typing S must behave as typing X (resp. Xː)
         let mut table: Vec<(String, String, bool)> = Vec::new();
         for l in &c.aliases { if let Some((s, x)) = l.split_once(" > ") { let long = x.ends_with(":[+long]"); table.push((s.to_string(), x.trim_end_matches(":[+long]").to_string(), long)); } }
-        let enc = c.text(&|s, long| { for (f, x, l) in &table { if x == s && *l == long { return f.clone() } } if long { format!("{s}ː") } else { s.to_string() } });
+        let enc = c.text(&|s, long| { if c.expand.iter().any(|(f, _)| f == s) { return s.to_string() } for (f, x, l) in &table { if x == s && *l == long { return f.clone() } } if long { format!("{s}ː") } else { s.to_string() } });
         let with = match run_pub(&g, &[enc.clone()], &c.aliases, &[]) { Ok(v) => v[0].clone(), Err(Applied::Abort(s)) => { rep.abort(s, || c.json()); return } Err(e) => { let t = e.tag(); if t.contains("AliasSyn") || t.contains("AliasRun") { rep.obs("alias_rejected", 1); } else { rep.violation("encoded-word-fails".into(), || json!({"case": c.json(), "word": word, "encoded": enc, "observed": t})); } return } };
         if with != plain_run { rep.violation("deromanised-run-differs".into(), || json!({"case": c.json(), "word": word, "encoded": enc, "expected": plain_run, "observed": with})); return }
         if enc != word && plain_run != word { rep.nontrivial(hash64(&(&c.rule, &c.aliases, &word))); if rep.samples.len() < 8 { let v = json!({"rule": c.rule, "word": word, "encoded": enc, "deromanisers": c.aliases, "result": with}); rep.sample(|| v); } }
@@ -143,7 +168,7 @@ pub fn replay(_ctx: &Ctx, v: &Value) -> Report {
     let mut rep = Report::new(RULE);
     let bases: std::collections::HashSet<crate::sw::SegKey> = asca::verif::cardinals().iter().map(|(_, s)| sw::seg_key(s)).collect();
     let segs = v["segs"].as_array().map(|a| a.iter().map(|s| s.as_array().map(|x| x.iter().map(|t| t.as_str().unwrap_or("").to_string()).collect()).unwrap_or_default()).collect()).unwrap_or_default();
-    let c = Case { kind: jstr(v, "kind"), rule: jstr(v, "rule"), segs, stress: v["stress"].as_array().map(|a| a.iter().map(|x| x.as_u64().unwrap_or(0) as u8).collect()).unwrap_or_default(), tones: v["tones"].as_array().map(|a| a.iter().map(|x| x.as_u64().unwrap_or(0) as u16).collect()).unwrap_or_default(), aliases: jstrs(v, "aliases") };
+    let c = Case { kind: jstr(v, "kind"), rule: jstr(v, "rule"), segs, stress: v["stress"].as_array().map(|a| a.iter().map(|x| x.as_u64().unwrap_or(0) as u8).collect()).unwrap_or_default(), tones: v["tones"].as_array().map(|a| a.iter().map(|x| x.as_u64().unwrap_or(0) as u16).collect()).unwrap_or_default(), aliases: jstrs(v, "aliases"), expand: v["expand"].as_array().map(|a| a.iter().map(|p| (p[0].as_str().unwrap_or("").to_string(), p[1].as_str().unwrap_or("").to_string())).collect()).unwrap_or_default() };
     judge(&mut rep, &c, &bases);
     rep
 }
